@@ -208,7 +208,7 @@ pub fn check_project(schema: &str, files: &[(String, String)], use_loader: bool)
 pub fn run(ctx: &Ctx, rep: &mut Report) {
     crate::gen_syntax::set_allow_block(false);
     rep.note("feature mask: no block strings, no coercing literals (owned by C07 / C04)");
-    let n = ctx.budget(6_000, 300_000);
+    let n = ctx.budget(32_000, 600_000);
     for case in 0..n {
         let mut rng = ctx.rng("case", case);
         let so = SchemaOpts::default_for(&mut rng);
